@@ -687,7 +687,8 @@ class Inliner:
                     ast.copy_location(val, call)
                     ast.fix_missing_locations(val)
                     return val
-                return None
+                if not (isinstance(lp.body[0], ast.If) and lp.body[0].orelse):
+                    return None
 
             class Y(ast.NodeTransformer):
                 def visit_Expr(self, node):
@@ -743,6 +744,7 @@ class Inliner:
                     continue
             return None
         val = norm._Subst(dict(env)).visit(copy.deepcopy(body[-1].value))
+        val = ast.fix_missing_locations(_ExprNorm().visit(val))       # (map(self._h, xs) returned by a helper: _h is then seen)
         val = self.inline_exprs(val, d - 1, stack + (callee.name,))
         for n in ast.walk(val):
             if hasattr(n, "lineno"):
@@ -2845,6 +2847,7 @@ class Canon:
         def prep(body):
             # (tables the helper loops over are written in and the loop unrolled: a `return` inside it is then an ordinary one)
             body = self._inline_class_constants(body, cls)
+            body = [ast.fix_missing_locations(_ExprNorm().visit(copy.deepcopy(s_))) for s_ in body]      # (map(f, xs) in a helper: f is then seen)
             if any(isinstance(n, ast.For) and isinstance(n.iter, (ast.Tuple, ast.List)) for s_ in body for n in ast.walk(s_)):
                 body = norm.unroll_literal_loops(body)
             body = lower_matches(body, self._match_args(module, fn))
